@@ -207,6 +207,12 @@ func runC06(e *emitter, tier string, seed uint64) {
 		"é", "日本", "\r\n", "\n", "\t", "{ children... }", "{!", "...", "=", "?=", "\xff", "\x00", "(", ")", "<script>", "</script>", "<style>", "func", "package ", "import \"",
 		"@func", "@func()", "@f(func(int) string(nil))", "@a.b(func() {})", "templ  X() {\n}\n", "css  c() {\n}\n", "script  s() {\n}\n", "templ\tY(a  string)  {\n}\n", "@x.y(", "{ f(", "{{ a :=", "`", "'\\''",
 		"script\thello(name string) {\n", "\nscript\t(", "\ncss\tc() {\n}\n", "\ntempl\tZ() {\n}\n", " ... }", "\n\t\t... }", "{ a ... }", "{ a\n... }"}
+	// every token at the very end of a file, after a few fixed openings (deterministic: independent of the seed)
+	for _, pre := range []string{"package x\n\n", "package x\n\ntempl T() {\n\t", "package x\n\ntempl T() {\n\t<div>\n\t\t", "package x\n\ntempl T() {\n\t<div a={ s }", "package x\n\ntempl T() {\n\tif x {\n\t\t"} {
+		for _, tk := range tokens {
+			doFile(pre+tk, "ended-by-token")
+		}
+	}
 	nm := 4000
 	if tier == "thorough" {
 		nm = 200000
